@@ -51,6 +51,19 @@ func init() {
 		leanTy: "List UInt8 → Option String", resTy: tyErr, retLean: "Option String",
 		deflt: trDefaults["IsLegalUnixFilename"],
 	})
+	// C13  StructMember.GetOutFilename (the default base file name of an output)
+	addTranslated(trTarget{
+		name: "GetOutFilename", file: "martian/syntax/struct_type.go", recv: "StructMember", fn: "GetOutFilename", strElem: "Char",
+		params: []trParam{{lean: "isFile", goText: "s.isFile", leanTy: "String", ty: tyName},
+			{lean: "outName", goText: "s.OutName", leanTy: "List Char", ty: tyStr},
+			{lean: "isComplex", goText: "s.isComplex", leanTy: "Bool", ty: tyBool},
+			{lean: "tname", goText: "s.Tname.Tname", leanTy: "List Char", ty: tyStr},
+			{lean: "id_", goText: "s.Id", leanTy: "List Char", ty: tyStr}},
+		nameConsts: []string{"KindIsFile", "KindIsDirectory"},
+		strConsts:  map[string]string{"KindFile": "file", "KindPath": "path"},
+		leanTy:     "String → List Char → Bool → List Char → List Char → List Char", resTy: tyStr,
+		deflt: trDefaults["GetOutFilename"],
+	})
 	// C18  appendShellSafeQuote: what is appended for a rune of width 1
 	addTranslated(trTarget{
 		name: "shellEscape", file: "martian/core/shell_quote.go", fn: "appendShellSafeQuote", from: "switch r", outs: []string{"buf"},
